@@ -292,7 +292,7 @@ class Curve(SplineObject):
         interpolation_pts_x = N_old @ self.controlpoints  # projective interpolation points (x,y,z,w)
 
         # solve the interpolation problem
-        self.controlpoints = np.array(splinalg.spsolve(N_new, interpolation_pts_x))
+        self.controlpoints = np.reshape(np.array(splinalg.spsolve(N_new, interpolation_pts_x)), (-1, interpolation_pts_x.shape[1]))
         self.bases = [newBasis]
 
         return self
